@@ -23,8 +23,33 @@ fn case(seed: u64, idx: u64, ops: u64, miri: bool, stats: &mut Counts) -> Result
     hooks::set_named_delay(if delay_us > 0 { Some(("tracker.open.read", delay_us)) } else { None });
     let desc = format!("tracker openers={openers} ops/thread={ops} start_seqno={start} delay_at_open_us={delay_us}");
     let tracker = fjall::verif::tracker_new(start);
-    let published = Arc::new(AtomicU64::new(start));
-    let next_seqno = Arc::new(AtomicU64::new(start));
+    if !miri && idx % 4 == 0 {
+        // very many holders of one instant (every iterator made from a snapshot clones its nonce): 70 000 clones are
+        // registered, 65 600 of them dropped again, a gc runs - the others are still alive and must be protected
+        let first = tracker.open();
+        let inst = fjall::verif::nonce_instant(&first);
+        let mut clones: Vec<_> = (0..70_000).map(|_| first.clone()).collect();
+        tracker.publish(inst + 1);
+        tracker.publish(inst + 2);
+        clones.truncate(70_000 - 65_600);
+        fjall::verif::tracker_gc(&tracker);
+        let safe = tracker.get_seqno_safe_to_gc();
+        let registered = tracker.open_snapshots();
+        stats.inc("tracker.mass_holder_checks");
+        if safe >= inst || registered != clones.len() + 1 {
+            return Err(Deviation::new(
+                "tracker:invariant",
+                format!(
+                    "[{desc}] after 70001 holders of instant {inst} were registered and 65600 dropped, {} are alive but {registered} are registered and the gc watermark is {safe}",
+                    clones.len() + 1
+                ),
+            ));
+        }
+        drop(clones);
+        drop(first);
+    }
+    let published = Arc::new(AtomicU64::new(tracker.get()));
+    let next_seqno = Arc::new(AtomicU64::new(tracker.get()));
     let stop = Arc::new(AtomicBool::new(false));
     let errors: Arc<Mutex<Vec<String>>> = Arc::new(Mutex::new(Vec::new()));
     let checks = Arc::new(AtomicU64::new(0));
